@@ -37,8 +37,14 @@ def build_ae(config):
     services = []
     for i, (role, classes) in enumerate(config['adds']):
         if role == 'request':
-            # history: an association was already requested (and released) with the configuration so far
-            warm_up_request(ae)
+            # history: an association was already requested (and released) with the configuration so far;
+            # `classes` is the cycle of result codes that peer answered with ([] = accepted everything)
+            warm_up_request(ae, classes)
+            continue
+        if role == 'ts':
+            # the documented public attribute is changed between two add_* calls: classes configured from
+            # here on are to be proposed with these syntaxes, the earlier ones keep theirs
+            ae.supported_ts = frozenset(TSS[c] for c in classes)
             continue
         svc = make_service(i)
         uids = [POOL[c] for c in classes]
@@ -51,11 +57,14 @@ def build_ae(config):
     return ae, services
 
 
-def warm_up_request(ae):
+def warm_up_request(ae, results=()):
+    results = list(results) or [0]
+
     def responder(dul, rec):
         if rec['kind'] == 'pdu' and rec['spec'].get('t') == 1:
             pcs = [it for it in rec['spec']['items'] if it['t'] == 0x20]
-            return [fd.incoming_pdu(fd.ac_spec([(it['id'], 0, it['ts'][0]['name']) for it in pcs], 16384))]
+            return [fd.incoming_pdu(fd.ac_spec([(it['id'], results[k % len(results)], it['ts'][0]['name'])
+                                                for k, it in enumerate(pcs)], 16384))]
         if rec['kind'] == 'pdu' and rec['spec'].get('t') == 5:
             return [fd.incoming_pdu({'t': 6, 'r1': 0, 'r2': 0})]
         return []
@@ -71,15 +80,22 @@ def warm_up_request(ae):
 def expected_classes(config):
     """Distinct configured classes in first-configuration order, and the SCU service of each."""
     order, scu_service = [], {}
+    current = sorted(TSS[i] for i in config['ts']) or None
+    ts_of = {}
     for i, (role, classes) in enumerate(config['adds']):
         if role == 'request':
+            continue
+        if role == 'ts':
+            current = sorted(TSS[c] for c in classes)
             continue
         for c in classes:
             u = POOL[c]
             if u not in order:
                 order.append(u)
+                ts_of[u] = current      # the syntaxes configured when the class was (first) configured
             if role == 'scu':
                 scu_service[u] = i          # last add_scu wins (dict update)
+    expected_classes.ts_of = ts_of
     return order, scu_service
 
 
@@ -180,8 +196,8 @@ def check_established(case, config, order, scu_service, sup_ts, assoc, dul, stat
         extra = [u for u in proposed if u not in order]
         raise Violation('C11:classes', 'proposed classes differ from the configured ones: missing %r, extra %r'
                         % (missing[:3], extra[:3]), case)
-    want_ts = sorted(sup_ts) if sup_ts else None
     for it in pcs:
+        want_ts = expected_classes.ts_of.get(it['abs']['name'])
         got = sorted(t['name'] for t in it['ts'])
         if want_ts is not None and got != want_ts:
             raise Violation('C11:transfer-syntaxes', 'context %d proposes %r, configured %r' % (it['id'], got, want_ts), case)
@@ -257,7 +273,11 @@ def configs(draw, big=False):
             adds.append((role, lst))
     if draw(st.booleans()):
         pos = draw(st.integers(1, len(adds)))
-        adds.insert(pos, ('request', []))             # an earlier association request in the entity's history
+        # an earlier association request in the entity's history, some of whose contexts the peer refused
+        adds.insert(pos, ('request', draw(st.sampled_from([[], [3], [0, 3, 4], [4, 0], [1, 2, 3, 4]]))))
+    if draw(st.integers(0, 3)) == 0:
+        pos = draw(st.integers(1, len(adds)))
+        adds.insert(pos, ('ts', sorted(draw(st.sets(st.integers(0, 2), min_size=1)))))
     return {'kind': kind, 'ts': sorted(draw(st.sets(st.integers(0, 2)))), 'aet': draw(st.sampled_from(['CLI', 'A', 'LOCAL_AE_16CHARS'])),
             'max': draw(st.sampled_from([0, 7, 4096, 16384, 65536, 2 ** 32 - 1])), 'adds': adds}
 
@@ -274,7 +294,7 @@ remotes = st.fixed_dictionaries({'aet': st.sampled_from(['SRV', 'REMOTE', 'X' * 
 
 def nontrivial(config, reply):
     results = {p[0] for p in reply['pattern']}
-    return len([a for a in config['adds'] if a[0] != 'request']) >= 2 and 0 in results and len(results) > 1
+    return len([a for a in config['adds'] if a[0] in ('scu', 'scp')]) >= 2 and 0 in results and len(results) > 1
 
 
 def run_random(ctx, n, big):
@@ -287,6 +307,10 @@ def run_random(ctx, n, big):
                          outcome], sample={'config': dict(config, adds=[(r, len(c)) for r, c in config['adds']]), 'reply': reply})
         if any(a[0] == 'request' for a in config['adds']):
             ctx.label('earlier-request-in-history')
+        if any(a[0] == 'request' and set(a[1]) & {3, 4} for a in config['adds']):
+            ctx.label('earlier-request-partly-refused')
+        if any(a[0] == 'ts' for a in config['adds']):
+            ctx.label('syntaxes-changed-between-adds')
     hyp_search(ctx, st.tuples(configs(big), replies, remotes), fn, n, name='C11-random')
 
 
@@ -300,11 +324,16 @@ def run_exhaustive_replies(ctx):
         for pattern in itertools.product(opts, repeat=ncls):
             for permute in (False, True):
                 reply = {'pattern': list(pattern), 'permute': permute, 'max': 16384, 'ts_on_reject': permute}
+                cfg = config
+                if permute:
+                    # same classes, but the syntaxes are changed between the two calls and an earlier
+                    # association was partly refused by its peer
+                    cfg = dict(config, adds=[config['adds'][0], ('ts', [2]), ('request', [0, 3, 4]), config['adds'][1]])
                 try:
-                    run_case(config, reply, remote)
+                    run_case(cfg, reply, remote)
                 except Violation as v:
                     ctx.fail(v.key, v.what, v.case)
-                ctx.case(('ex', ncls, pattern, permute), nontrivial(config, reply), labels=['exhaustive-replies', 'n=%d' % ncls],
+                ctx.case(('ex', ncls, pattern, permute), nontrivial(cfg, reply), labels=['exhaustive-replies', 'n=%d' % ncls],
                          sample={'classes': ncls, 'pattern': pattern, 'permute': permute})
 
 
@@ -362,7 +391,7 @@ def run_builtin(ctx):
 def run(ctx):
     warnings.simplefilter('ignore')
     ctx.rule = ('Hypothesis: sequences of 1-6 add_scu/add_scp calls on ClientAE/AE (never bound) with class lists '
-                'from a pool of 200 synthetic UIDs, disjoint, overlapping across calls and repeated inside a call, optionally with an earlier association request between the calls, small and with totals around and '
+                'from a pool of 200 synthetic UIDs, disjoint, overlapping across calls and repeated inside a call, optionally with an earlier association request between the calls (answered with any mix of result codes) and with supported_ts changed between two calls, small and with totals around and '
                 'beyond 128; replies with every mix of result codes 0-4, syntax choices, in and out of proposal '
                 'order; exhaustive reply patterns for proposals of 1-4 contexts; the own service objects of the library '
                 '(storage_scp: 139 classes); non-trivial = >=2 add_* calls and a reply mixing accept and reject')
